@@ -24,6 +24,7 @@ ListOps ==
   \cup {Mk("kids", op, <<0, 0, 0>>, <<>>, <<>>) : op \in {"reverse", "clear"}}
   \cup {Mk("kids", "imul", <<k, 0, 0>>, <<>>, <<>>) : k \in 0..2}
   \cup {Mk("kidsassign", "", <<0, 0, 0>>, ys, <<>>) : ys \in SeqsUpTo(Items, 3)}
+  \cup {Mk("del", "kids", <<0, 0, 0>>, <<>>, <<>>)}          \* (the harness then fills the NEW default container)
 Keys == {1, 2, 11, 12}
 PairLists == SeqsUpTo(Keys \X Items, 2)
 Distinct(ps) == \A i, j \in 1..Len(ps) : i # j => D!V("coerce", ps[i][1]) # D!V("coerce", ps[j][1])
@@ -34,6 +35,7 @@ DictOps ==
   \cup {Mk("d", "pop", <<k, 1, 0>>, <<>>, <<>>) : k \in {1, 2}}
   \cup {Mk("d", "clear", <<0, 0, 0>>, <<>>, <<>>)}
   \cup {Mk("dassign", "", <<0, 0, 0>>, <<>>, ps) : ps \in {q \in PairLists : Distinct(q)}}
+  \cup {Mk("del", "d", <<0, 0, 0>>, <<>>, <<>>)}
 \* sets: m.xs the argument set (as a sequence), a[1] the item of add / discard / remove
 SubSeqs == {<<>>, <<2>>, <<3>>, <<2, 3>>}
 SetOps ==
@@ -42,6 +44,7 @@ SetOps ==
                                                        "intersection_update", "symmetric_difference_update"}, ys \in SubSeqs}
   \cup {Mk("s", "clear", <<0, 0, 0>>, <<>>, <<>>)}
   \cup {Mk("sassign", "", <<0, 0, 0>>, ys, <<>>) : ys \in SubSeqs}
+  \cup {Mk("del", "s", <<0, 0, 0>>, <<>>, <<>>)}
 \* the nested container: pre = the list stored under key 1 (and, when it has two items, its reverse under key 2)
 DLOps ==
        {Mk("dl", "setitem", <<k, 0, 0, 0>>, ys, <<>>) : k \in {1, 2, 11}, ys \in SeqsUpTo(Items, 2)}
@@ -52,6 +55,7 @@ DLOps ==
   \cup {Mk("dlin", "pop", <<None, 0, 0, k>>, <<>>, <<>>) : k \in {1, 2}}
   \cup {Mk("dlin", "clear", <<0, 0, 0, 1>>, <<>>, <<>>)}
   \cup {Mk("dlassign", "", <<0, 0, 0, 0>>, <<>>, <<<<1, ys>>>>) : ys \in SeqsUpTo(Items, 2)}
+  \cup {Mk("del", "dl", <<0, 0, 0, 0>>, <<>>, <<>>)}
 \* the dynamic trait: the root's child is pre[1]; m.xs: the order in which objects are given the trait (add_trait with
 \* another object's instance trait as the definition)
 DynOps == {Mk("addx", "", <<0, 0, 0>>, ys, <<>>) : ys \in {<<2>>, <<3>>, <<2, 3>>, <<3, 2>>, <<1, 2, 3>>}}
